@@ -105,21 +105,29 @@ CLAIMED = {
         text='Coq theorems: for EVERY sequence of timing lines the decoded timing/difficulty/effect points are strictly ordered (model of the pending/flush/binary-search-insert logic, tied word for word to the decoder on every run); objects and sounds are permuted by the same swaps (tandem sort = sort of the zipped lines) for every swap sequence; complete check of the tandem sort incl. sorter reuse on all 1093 small time patterns. NOT modelled: tokenisers, number parsers, encodings, slider path parsing, mania legacy sort - for those totality / io-errors-only / finiteness / clamps / bytes=str=path are decided by the byte-level oracle only (partial).',
         tech='Coq invariant proof over a decoder bookkeeping model + word-exact correspondence + byte-level well-formedness oracle'),
     "C19": dict(
-        text='Coq theorems: mania key count = key mod or within 4..7 for every cs/od/object mix (model tied to the code); a note placed through column_to_pos is read back in its column for all key counts 1..10 and no integral x maps to a column at or above the key count for 1..18 (complete finite checks over the f32 model, tied to ManiaObject::column); taiko objects/sounds spliced in lock step and sorted in tandem keep one sound per object; effect points stay strictly ordered. NOT modelled: pattern choice, slider geometry, the taiko hit-splitting arithmetic - decided by the direct oracle over generated osu! maps x targets x key mods (partial). Random columns: only the end points of next_int_range are proved.',
+        text='Coq theorems: mania key count = key mod or within 4..7 for every cs/od/object mix (model tied to the code); a note placed through column_to_pos is read back in its column (clamped and unclamped quotient) for all key counts 1..10 and no integral x maps to a column at or above the key count for 1..18 (complete finite checks over the f32 model, tied to ManiaObject::column); taiko objects/sounds spliced in lock step and sorted in tandem keep one sound per object; effect points stay strictly ordered. NOT modelled: pattern choice, slider geometry, the taiko hit-splitting arithmetic - decided by the direct oracle over generated osu! maps x targets x key mods (partial). Random columns: only the end points of next_int_range are proved.',
         tech='Coq proofs over column/key-count models + correspondence + structural oracle on conversions'),
     "C11": dict(
         text="Coq theorems (unbounded op sequences) that the compact strain list refines a plain list, that transmute_into_vec's "
              "and from_raw_parts' contracts hold and that zero counts never overflow; model tied to src/util/strains_vec.rs by "
-             "bit-exact op-sequence differential through the verification hook. Partial: gradual-calculator lifetimes and the "
-             "decoder scratch buffer are not modelled yet.",
-        tech="Coq refinement proof (induction over op sequences) + model/impl correspondence"),
+             "bit-exact op-sequence differential through the verification hook. The hand-extended lifetimes (osu!/taiko gradual "
+             "self-references, the decoder's *const str scratch vector) are proved safe on a heap/ownership/tag model for EVERY "
+             "history of moves, uses, unrelated allocations/frees and the drop, and every sequence of lines; that model is "
+             "conditional on 16 facts (field order, no reassignment after new, not Clone, raw-pointer owner, exact shape of "
+             "point_split, no other use of the scratch vector) REGENERATED from the source on every run and checked by a "
+             "kernel-evaluated theorem, each with a refutation lemma. Supporting, not proof: Miri (Stacked Borrows; Tree Borrows "
+             "in the thorough tier) over /verif/miri, and an oracle that rejected slider lines leave no trace. Partial: the "
+             "ownership model is hand-written, not derived from MIR.",
+        tech="Coq refinement + ownership-history proofs, source facts regenerated per run, model/impl correspondence, Miri as supporting oracle"),
     "C12": dict(
-        text="Coq theorems for ALL attribute shapes / provided subsets / priorities / origins / passed_objects (osu! and taiko): "
+        text="Coq theorems for ALL attribute shapes / provided subsets / priorities / origins / passed_objects (all four modes): "
              "misses <= objects, hit results within the non-missed objects, sum = objects whenever the clamped provided results "
              "fit, provided results never reduced and kept exactly when another result is free, combo <= achievable, slider "
              "hits within maxima, and idempotence of generate_state; the float search is quantified away (any candidate of the "
-             "window). Catch is modelled and tied by correspondence (no theorem yet), mania is checked by the direct oracle only "
-             "(partial). calculate() == state(generated).calculate() is checked on the implementation.",
+             "window). All four modes are modelled branch for branch and proved (mania incl. its four nested candidate loops and "
+             "the classic-mode shifts); the one hypothesis - the accuracy search accepted a candidate - is a computable boolean "
+             "evaluated on every recorded trace and false only for a NaN accuracy (refutation lemma). "
+             "calculate() == state(generated).calculate() is checked on the implementation.",
         tech="Coq proofs over a branch-for-branch model of generate_state + bit-exact model/impl correspondence + direct oracle"),
     "C13": dict(
         text="Finite-but-complete Coq theorems (kernel VM evaluation of the float model that is run against the code): on the "
